@@ -37,6 +37,10 @@ func DecodeStruct(b []byte) (dataSize int, size int, err error) {
 		return
 	}
 	size += n + int(dataSize_)
+	if len(b) < size {
+		err = errors.New("decode struct: invalid data")
+		return 0, 0, err
+	}
 
 	return int(dataSize_), size, nil
 }
